@@ -22,6 +22,7 @@ DEFAULT_SKIP_PKGS = ["runtime", "sync", "syscall", "os", "fmt", "reflect", "time
 
 _PROG = None
 _UNIT = None
+_SLOTS = None
 
 
 def sh(cmd, **kw):
@@ -124,6 +125,18 @@ def dump_unit(prop, unit):
 
 def run_one(hname):
     """worker: run one harness; returns result dict"""
+    if _SLOTS is not None:
+        with _SLOTS.get_lock():
+            _SLOTS.value += 1
+    try:
+        return _run_one(hname)
+    finally:
+        if _SLOTS is not None:
+            with _SLOTS.get_lock():
+                _SLOTS.value -= 1
+
+
+def _run_one(hname):
     from .engine import Prog, Executor, State, Unsupported
     unit = _UNIT
     t0 = time.time()
@@ -136,11 +149,19 @@ def run_one(hname):
         cfg = dict(unit.get("cfg", {}))
         cfg.update(unit.get("cfg_" + tier, {}))
         maxlen = int(d.get("maxlen", cfg.get("maxlen", 1 << 31)))
+        cfg.setdefault("tmpdir", os.path.join(WORK, "tmp"))
+        os.makedirs(cfg["tmpdir"], exist_ok=True)
         ex = Executor(_PROG, mode=mode, unwind=unwind, maxlen=maxlen, cfg=cfg,
                       timeout_ms=int(cfg.get("solver_timeout_ms", 120000)))
+        if unit.get("contracts"):
+            from .stubs import install_contracts
+            install_contracts(ex, unit["contracts"])
         if "stubs_module" in unit:
             import importlib
             importlib.import_module(unit["stubs_module"]).install(ex)
+        if _SLOTS is not None:
+            ex.slots = _SLOTS
+            ex.max_procs = int(os.environ.get("VERIF_JOBS", "16"))
         st = State()
         st = ex.run_inits(st, unit.get("init_pkgs", [unit["_pkgpath"]]))
         st.pc = []
@@ -155,7 +176,7 @@ def run_one(hname):
             "paths": s.paths_done, "nontrivial_paths": s.nontrivial_paths, "queries": s.queries, "solver_time": round(s.solver_time, 3),
             "asserts": s.asserts, "reached": s.reached, "funcs": sorted(s.funcs), "stubs": sorted(s.stubs),
             "unknown": s.unknown, "max_unwind": s.max_unwind, "samples": s.samples,
-            "merged_ifs": getattr(s, "merged_ifs", 0), "merged_calls": getattr(s, "merged_calls", 0),
+            "merged_ifs": s.merged_ifs, "merged_calls": s.merged_calls, "procs": s.procs,
             "violations": [v.asdict() for v in ex.violations],
             "inconclusive": sorted(set(ex.inconclusive)),
         })
@@ -204,7 +225,8 @@ def load_known():
 
 
 def check(prop, tier, only=None):
-    global _PROG, _UNIT
+    global _PROG, _UNIT, _SLOTS
+    _SLOTS = mp.get_context("fork").Value("i", 0)
     sys.path.insert(0, VERIF)
     import props
     from .engine import Prog
